@@ -119,7 +119,7 @@ pub fn variants() -> Vec<&'static Variant> {
 }
 
 pub fn run(ctx: &Ctx) -> i32 {
-    ctx.run_variant(&V, ctx.scale(40_000, 800_000));
+    ctx.run_variant(&V, ctx.scale(300_000, 5_000_000));
     ctx.finish(
         "exploration",
         "strings s over syntax characters, '-', '/', digits, letters that follow backslashes in escapes (d w p u x c n k), whitespace, NUL, 1-4-byte and case-special characters (length 0-8) x texts t with planted full / partial / overlapping copies x one of the 24 flag sets for matching (compilation is checked under all 24). Oracle: round trip (removing the backslash before each syntax character restores s and nothing else changed), str::match_indices without i (every boundary for the empty string), canonical-equivalence scan with i. Non-trivial = s contains a syntax or non-ASCII character and t contains an occurrence.",
